@@ -1312,6 +1312,14 @@ class Analyzer:
             return -1, lin.neg()
         return 1, lin
 
+    @staticmethod
+    def prod_name(la, lb):
+        """(symbol name, sign) of the product of two forms: the symbol stands for canon(la)*canon(lb)"""
+        sa, ca = Analyzer.canon(la)
+        sb, cb = Analyzer.canon(lb)
+        k1, k2 = sorted([ca.key(), cb.key()], key=repr)
+        return T("mul", k1, k2), sa * sb
+
     def prod_sym(self, st, la, lb):
         """symbol for the product of two (canonical) forms and the sign to apply; bounds from the boxes"""
         sa, ca = self.canon(la)
